@@ -18,7 +18,14 @@ Per case (seeded schema x generated valid instance x converter class x converter
     foreign keys) go through the real methods and the model as well; the whole captured ElementData tree is sent through
     the model's `decTree`/`encTree` and compared with the real decode result and the ElementData tree of
     the real encode; `iter_unordered_content` / `iter_collapsed_content` are replayed against the model
-    with the recorded behaviour of the real ModelVisitor.
+    with the recorded behaviour of the real ModelVisitor;
+  * nested namespace declarations: most instances with children are explored a second time, re-serialised
+    (validity-preserving) with random namespace (re)declarations on non-root elements at any depth
+    (`lib_c05.serialize_nested`: new prefixes, re-bound prefixes, default namespace bound / re-bound / un-declared,
+    names written with any in-scope prefix).  For these the mapper is no longer one function per document: the
+    name mapping of every call is recorded at call time, filed under the lexical scope of the call, must be ONE
+    mapping per scope (`scope_tables`), and the document goes through the scoped recursion
+    `decTreeS`/`encTreeS` of the model (JsonML, DataElement).
 """
 from __future__ import annotations
 
@@ -37,17 +44,23 @@ AUDIT = 'XsVerif.Audit.C05'
 LEAN_TARGETS = ['XsVerif.Props.C05', 'XsVerif.Props.C05Encode', 'drv_c05', 'drv_c01']
 LEANCHECK = ['XsVerif.Model.Converters', 'XsVerif.Model.ContentOrder', 'XsVerif.Model.DataElement',
              'XsVerif.Model.DefaultConv', 'XsVerif.Lemmas.Tree', 'XsVerif.Lemmas.DataElement',
-             'XsVerif.Lemmas.DefaultConv', 'XsVerif.Props.C05', 'XsVerif.Props.C05Encode']
+             'XsVerif.Lemmas.DefaultConv', 'XsVerif.Lemmas.JsonMLScoped', 'XsVerif.Props.C05',
+             'XsVerif.Props.C05Encode']
 RULE = ('a case is one (schema seed, instance, converter class, converter options[, mutation]); non-trivial = the '
         'document has at least one child element or attribute and the converter took a non-default branch '
         '(attributes dict, text, cdata, list value, repeated name collapsed into a list) — tagged by the branch '
         'set computed from the captured ElementData; distinct by canonical JSON of (xsd, xml, converter, options, '
         'mutation); direct/witness cases are hand-made one-level ElementData / data objects for the DataElement and '
-        'default converters (always non-trivial: they exist to reach error and collision branches)')
+        'default converters (always non-trivial: they exist to reach error and collision branches); the histogram '
+        'keys nsdecl:* give the distribution of the nested-namespace-declaration dimension (depth of nesting of '
+        'declaring elements, kinds of (re)declaration, documents in which a later element leaves two or more '
+        'declaring elements at once)')
 TRUSTED = ['typed leaf values are opaque atoms in the model (kind, lexical); simple-type encoders/decoders are '
            'exercised on the real code only (C02 owns them)',
-           'map_qname/unmap_qname are parameters of the theorems (left-inverse hypothesis); the tables used by the '
-           'driver are dumped from the real converter for every document (C17 owns the namespace mapper)',
+           'map_qname/unmap_qname are parameters of the theorems (left-inverse hypothesis; in the scoped theorems a '
+           'family of mappers indexed by the namespace declarations in scope); the tables used by the driver are '
+           'dumped from the real converter at every call and must be one table per lexical scope (C17 owns the '
+           'namespace mapper: how a scope determines the mapping is not modelled here)',
            'the ModelVisitor is a parameter of the permutation theorems; in the correspondence its behaviour is '
            'recorded from the real visitor (C01 owns the visitor)',
            'default convention: preserve_root=True (the root wrapper) is not modelled (such cases are skipped in the '
@@ -60,7 +73,16 @@ ASSUMPTIONS = ['round trip is evaluated for valid documents only (generated inst
                'counted and skipped)',
                'for the collapsing conventions (default/BadgerFish/GData) the equality clauses are required only '
                'when same-named children are contiguous in every element of the instance; position of mixed text '
-               'between children is not part of "element structure" for these conventions']
+               'between children is not part of "element structure" for these conventions',
+               'for the collapsing conventions "same-named children are contiguous" is read on the dictionary keys: '
+               'a child is named by its prefixed name in its own namespace context, so the equality clauses are not '
+               'required when a member of a group of same-named siblings re-declares a prefix of / for its own '
+               'namespace (the members become two keys, as for non-contiguous names); validity of the re-encoded '
+               'document is still required',
+               'for a document with namespace declarations below the root "decodes to the same data again" is read '
+               'modulo the place of the declarations: the data of the second decode is compared with the data of the '
+               'same document written with the root declarations only (the serialiser of the harness writes every '
+               'declaration at the root); QName-valued content is not generated']
 
 FINDINGS_FILE = VERIF / 'notes' / 'findings' / 'C05.json'
 LOG: list = []
@@ -206,6 +228,7 @@ def unmap_tables(conv, obj, xsd_element) -> dict:
     # for the scoped model: the names that the call un-maps in its own context, and the children's names
     # (un-mapped in the context extended with the child's declarations)
     try:
+        out['xmlns'] = [list(x) for x in (conv.get_xmlns_from_data(obj) or [])]
         if kind == 'JsonMLConverter' and isinstance(obj, MutableSequence):
             out['own'] = [own] if own is not None else []
             if len(obj) > 1 and isinstance(obj[1], MutableMapping):
@@ -1139,15 +1162,17 @@ def scope_tables(ctx: Ctx, cname: str, root: dict, enclog: list, case: dict) -> 
     walk(root, [])
     stack: list = []            # scopes of the enclosing element_encode calls
     for ent in enclog:
-        if ent[0] != 'enc':
+        if ent[0] not in ('enc', 'encerr'):
             continue
         _, obj, xe, level, ed, t = ent
         if 'own' not in t or level > len(stack):
             return None
         del stack[level:]
-        scope = [list(p) for p in (ed.xmlns or [])] + (stack[-1] if stack else [])
+        # a call that raised has no ElementData: its declarations are the ones `get_xmlns_from_data` reads
+        x = (ed.xmlns or []) if ent[0] == 'enc' else t.get('xmlns', [])
+        scope = [list(p) for p in x] + (stack[-1] if stack else [])
         stack.append(scope)
-        where = 'element_encode ' + str(ed.tag)
+        where = 'element_encode ' + str(xe.name) + (' (raised)' if ent[0] == 'encerr' else '')
         for ext, s in t['tags']:
             if s in t['own']:
                 put(scope, 'tags', ext, s, where)
@@ -1651,11 +1676,13 @@ def run(ctx: Ctx, driver_ok: bool) -> None:
     from harness.props import c01 as _c01
     _c01.encoder_family(ctx, Driver('drv_c01') if driver_ok else None, ctx.pick(40, 300), known_fid='C05-F10')
     direct_cases(ctx, drv, ctx.pick(600, 6000))
-    explore(ctx, drv, ctx.pick(40, 250), ctx.pick(3, 5), ctx.pick(4, 6))
-    ctx.extra['explanation'] = ('seeded random schemas x valid instances x 5 converter classes x options; per case: '
+    explore(ctx, drv, ctx.pick(50, 250), ctx.pick(3, 5), ctx.pick(4, 6))
+    ctx.extra['explanation'] = ('seeded random schemas x valid instances (each also re-serialised with random nested '
+                                'namespace (re)declarations) x 5 converter classes x options; per case: '
                                 'round trip on the real code, mutated-data strict encode, Lean model comparison '
                                 '(JsonML, DataElement, default: every element_decode/element_encode call + whole tree, '
-                                'plus hand-made one-level calls and the witnesses of the _counterexample theorems; '
+                                'JsonML/DataElement also through the scoped recursion with one name mapping per lexical '
+                                'scope, plus hand-made one-level calls and the witnesses of the _counterexample theorems; '
                                 'iter_unordered_content/iter_collapsed_content replayed with the recorded visitor)')
     ctx.extra['converters_modelled_in_lean'] = list(MODELLED)
     ctx.extra['counterexample_witnesses_replayed_on_real_code'] = [w[0] for w in WITNESSES]
